@@ -61,6 +61,16 @@ def strip_generics(path):
     return ''.join(out)
 
 
+def norm_path(p):
+    p = strip_generics(p)
+    for pre in ('std::prelude::v1::', 'core::prelude::v1::'):
+        if p.startswith(pre):
+            p = p[len(pre):]
+    if p.startswith('core::'):
+        p = 'std::' + p[len('core::'):]
+    return p
+
+
 def last_seg(path, n=1):
     p = strip_generics(path)
     if p.startswith('<'):
@@ -176,7 +186,7 @@ def lit_str(v):
 
 def res_path(res):
     if res.get('k') == 'Def':
-        return strip_generics(res['path'])
+        return norm_path(res['path'])
     if res.get('k') == 'Local':
         return res['name']
     return res.get('dbg', '?')
@@ -193,7 +203,7 @@ def term(node, env=None, depth=0):
             return env[node['id']]
         return node['name']
     if k == 'Def':
-        return strip_generics(node.get('resolved') or node['path'])
+        return norm_path(node.get('resolved') or node['path'])
     if k == 'Lit':
         return lit_str(node['v'])
     if k == 'Field':
@@ -209,7 +219,7 @@ def term(node, env=None, depth=0):
         fn = term(f, env)
         return '%s(%s)' % (fn, ', '.join(term(a, env) for a in node['args']))
     if k == 'MethodCall':
-        p = strip_generics(node.get('resolved') or node.get('path') or node['name'])
+        p = norm_path(node.get('resolved') or node.get('path') or node['name'])
         return '%s(%s)' % (p, ', '.join(term(a, env) for a in call_args(node)))
     if k == 'Tup':
         return '(%s)' % ', '.join(term(a, env) for a in node['es'])
@@ -361,3 +371,58 @@ def desugar_for(node):
         return pat, it, some_arm['body']
     except (KeyError, IndexError, TypeError):
         return None
+
+
+def ancestors(root, pred):
+    """All (chain, node) with pred(node); chain = [(ancestor, role-in-ancestor), ...] root first."""
+    out = []
+
+    def rec(n, chain):
+        if pred(n):
+            out.append((list(chain), n))
+        for role, c in children(n):
+            chain.append((n, role))
+            rec(c, chain)
+            chain.pop()
+    rec(root, [])
+    return out
+
+
+def by_span(root, sp, kinds=None):
+    return [(ch, n) for ch, n in ancestors(root, lambda n: n.get('sp') == sp and (kinds is None or n.get('k') in kinds))]
+
+
+def branch_guards(chain):
+    """Structural guards of a node from its ancestor chain: [(cond_node, polarity)] for If
+    ancestors (True = then-branch), [(match_node, arm_index)] for Match ancestors."""
+    out = []
+    for anc, role in chain:
+        k = anc.get('k')
+        if k == 'If':
+            if role == 'then':
+                out.append(('if', anc, True))
+            elif role == 'else':
+                out.append(('if', anc, False))
+    return out
+
+
+def local_id(n):
+    n = peel(n)
+    if n.get('k') == 'Local':
+        return n['id']
+    return None
+
+
+def same_place(a, b):
+    """Two expressions denote the same place: same local, or same field path of the same local."""
+    a = peel(a)
+    b = peel(b)
+    if a.get('k') != b.get('k'):
+        return False
+    if a.get('k') == 'Local':
+        return a['id'] == b['id']
+    if a.get('k') == 'Field':
+        return a['name'] == b['name'] and same_place(a['e'], b['e'])
+    if a.get('k') == 'Def':
+        return a.get('path') == b.get('path')
+    return False
